@@ -133,6 +133,16 @@ def gen_chain_rgfa(rng, n_chrom=None, scaffolds=None, id_style=None, defects=Non
     for ci, name in enumerate(names):
         b = ChromBuilder(g, rng, ids, name, haps, len_hi)
         builders.append(b)
+        if defects.get(ci) in ("pair", "ring"):
+            # no articulation point at all: two linked segments (a small unplaced contig), or a ring
+            ns = [b.ref() for _ in range(2 if defects[ci] == "pair" else rng.randint(3, 5))]
+            for x, y in zip(ns, ns[1:]):
+                b.link(x, "+", y, "+")
+            if defects[ci] == "ring":
+                b.link(ns[-1], "+", ns[0], "+", rng.randint(1, 9))
+            b.scaffolds = list(ns)
+            g.chroms.append({"name": name, "nodes": b.nodes, "defect": defects[ci]})
+            continue
         k = scaffolds if scaffolds is not None else rng.choice([1, 2, 2, 3, rng.randint(3, 10), rng.randint(10, 60)])
         es = end_style or rng.choice(["leaf", "leaf", "leafhap", "bubble", "hapleaf"])
         # left end
